@@ -39,7 +39,10 @@ def build_pdf(case):
     mapping = {33 + i: s for i, s in enumerate(case["alphabet"])}
     cmap, _ = F.tounicode_cmap(mapping)
     objs[10] = W.D(Type=W.N("Font"), Subtype=W.N("Type1"), BaseFont=W.N("Base"), FirstChar=33,
-                   LastChar=33 + len(mapping) - 1, Widths=[500] * len(mapping), ToUnicode=W.R(11),
+                   LastChar=33 + len(mapping) - 1,
+                   # every third glyph has no advance (as combining marks do): a degenerate box, still a glyph
+                   Widths=[0 if (i % 3 == 2 and case.get("zero_widths")) else 500 for i in range(len(mapping))],
+                   ToUnicode=W.R(11),
                    FontDescriptor=W.D(Type=W.N("FontDescriptor"), FontName=W.N(case["fontname"].encode("utf-8")), Flags=32,
                                       FontBBox=[0, 0, 1000, 1000], Ascent=800, Descent=-200))
     objs[11] = W.Stream({}, cmap)
@@ -84,10 +87,10 @@ def content_bytes(items, xobj):
                 codes = b"".join((33 + c).to_bytes(2, "big") for c in it["codes"])
             else:
                 codes = bytes(33 + c for c in it["codes"])
-            out.append(b"BT /%s %d Tf %d %d Td <%s> Tj ET" % (it.get("font", "F1").encode(), it["size"], it["x"], it["y"],
+            out.append(b"BT /%s %d Tf %s %s Td <%s> Tj ET" % (it.get("font", "F1").encode(), it["size"], _num(it["x"]), _num(it["y"]),
                                                              codes.hex().encode()))
         elif k == "rect":
-            out.append(b"%s w %d %d %d %d re S" % (str(it["lw"]).encode(), it["x"], it["y"], it["w"], it["h"]))
+            out.append(b"%s w %s %s %d %d re S" % (str(it["lw"]).encode(), _num(it["x"]), _num(it["y"]), it["w"], it["h"]))
         elif k == "line":
             out.append(b"%s w %d %d m %d %d l S" % (str(it["lw"]).encode(), it["x"], it["y"], it["x"] + it["w"], it["y"] + it["h"]))
         elif k == "curve":
@@ -335,6 +338,14 @@ def _near(data, e):
 
 
 # ---------------------------------------------------------------------------------------------- generators
+def _num(v):
+    return (b"%d" % v) if isinstance(v, int) else ("%.4f" % v).rstrip("0").rstrip(".").encode()
+
+
+# positions just outside the page's left / bottom edge (coordinates between -0.5 and 0 in every bbox attribute)
+EDGE = [-0.3, -0.25, -0.0625, -0.45, -0.5, -1.5]
+
+
 @st.composite
 def items(draw, nalpha, form_names, depth=0):
     out = []
@@ -342,13 +353,15 @@ def items(draw, nalpha, form_names, depth=0):
     for _ in range(draw(st.integers(1, 5))):
         k = draw(st.integers(0, 9))
         if k <= 5:
-            out.append({"k": "text", "x": draw(st.sampled_from([50, 50, 300])), "y": y, "size": draw(st.sampled_from([10, 12])),
+            out.append({"k": "text", "x": draw(st.sampled_from([50, 50, 300] + EDGE)), "y": y, "size": draw(st.sampled_from([10, 12])),
                         "codes": draw(st.lists(st.integers(0, nalpha - 1), min_size=1, max_size=8)),
                         "font": draw(st.sampled_from(["F1", "F1", "F1", "F2"]))})
             y -= draw(st.sampled_from([12, 14, 40, 90]))
         elif k == 6:
-            out.append({"k": draw(st.sampled_from(["rect", "line", "curve"])), "x": draw(st.integers(10, 300)),
-                        "y": draw(st.integers(10, 700)), "w": draw(st.integers(0, 200)), "h": draw(st.integers(0, 100)),
+            kk = draw(st.sampled_from(["rect", "line", "curve"]))
+            out.append({"k": kk, "x": draw(st.one_of(st.integers(10, 300), st.sampled_from(EDGE))) if kk == "rect" else draw(st.integers(10, 300)),
+                        "y": draw(st.one_of(st.integers(10, 700), st.sampled_from(EDGE))) if kk == "rect" else draw(st.integers(10, 700)),
+                        "w": draw(st.integers(0, 200)), "h": draw(st.integers(0, 100)),
                         "lw": draw(st.sampled_from([0, 1, 0.5, 2.75]))})
         elif k == 7:
             out.append({"k": "image", "x": draw(st.integers(10, 300)), "y": draw(st.integers(10, 600)), "w": draw(st.integers(1, 90)),
@@ -384,6 +397,7 @@ def cases(draw):
         except UnicodeEncodeError:
             pass
     return {"alphabet": alphabet, "fontname": fontname, "forms": forms, "pages": pages, "output": output,
+            "zero_widths": draw(st.booleans()),
             "la": draw(st.sampled_from(["none", "default", "default", "all_texts", "flow_none", "vertical"])),
             "sink": draw(st.sampled_from(sinks)), "strip": strip if output == "xml" else False}
 
